@@ -727,6 +727,10 @@ func (env *SpecEnv) evalCall(x *SExpr) Val {
 		return mkStr(app("str_lower", t0(0)))
 	case "getenv":
 		return mkStr(app("os_getenv", t0(0)))
+	case "wscount":
+		return mkInt(app("ws_count", t0(0)))
+	case "wsword":
+		return mkStr(sel(app("ws_words", t0(0)), t0(1)))
 	case "errmsg":
 		return mkStr(app("err_msg", t0(0)))
 	case "erris":
